@@ -8,6 +8,8 @@
 (*     caller named" (S2IDispatchRefines).                                          *)
 (*  B. (NextS) sky anchors: reference pixel -> CRVAL, gnomonic anchors.             *)
 (*  D. (NextR) input representations: call x dtype x container x layout x header.   *)
+(*  E. (InitW / NextW) the world: two or three objects alive in one process, built   *)
+(*     from related headers, calls interleaved; module-level state is world state.   *)
 (*  C. (InitH / NextH) the call-history machine: every call sequence up to MaxHist  *)
 (*     over HistCalls on one object (implementation-shaped object state: lazy       *)
 (*     inverse, root-finder scratch) - each result must equal the fresh object's.   *)
@@ -26,6 +28,9 @@ CONSTANTS Projs,        \* subset of {"TAN", "TPV", "TANPV", "SIP"}
           HistCalls, MaxHist, ShortKinds,    \* sequences of length MaxHist (MaxHist - 1 for the header kinds in ShortKinds)
           HistVariant,                       \* "pinned" | "warm_start" | "stale_inverse" | "identity_cache"
           HistArgModes,                      \* subset of {"scalar", "buffer"}: how the caller hands over the arguments
+          HistKinds,                         \* header kinds of the history machine
+          WorldCalls, WorldLen, WorldRelIds, WorldKinds,   \* several objects in one process
+          WorldVariant,                      \* "pinned" | "module_memo"  (self-test: inverse fit memoised per coefficient set)
           PolyVariant,                       \* "pinned" | "zip_pair"  (self-test: evaluating the A/B pair over the common shape)
           OrdVariety,                        \* TRUE: SIP A/B (AP/BP) orders and the PV keyword sets of the two axes vary independently
           ReprCalls, ReprKinds,              \* input representations: calls and header kinds
@@ -252,8 +257,17 @@ MechCall(k, st, call, pos, mode) ==
         p      == <<"p", pos>>
         argid  == IF mode = "buffer" THEN "caller_buffer" ELSE "fresh"
         tanInv == Res("tan_inverse", s, "-")
-        root   == LET g == IF HistVariant = "warm_start" /\ st.guess[1] # "none" THEN st.guess ELSE <<"tan_inverse", s>>
-                  IN [st |-> [st EXCEPT !.guess = <<"root", s>>], res |-> Res("root", s, g)]
+        \* the root finder with tolerance x (variant "solver_cached": the solver is built by the first root-finding
+        \* call of the object with ITS tolerance bound in)
+        Root(x) == LET g  == IF HistVariant = "warm_start" /\ st.guess[1] # "none" THEN st.guess ELSE <<"tan_inverse", s>>
+                       xt == IF HistVariant = "solver_cached" /\ st.solver # "none" THEN st.solver ELSE x
+                   IN [st |-> [st EXCEPT !.guess = <<"root", s>>, !.solver = IF st.solver = "none" THEN x ELSE st.solver],
+                       res |-> Res("root", s, <<g, xt>>)]
+        root   == Root("default")
+        \* rejected half-way: the first element went through the root finder (scratch buffers written), then the
+        \* call raised; for an undistorted header the call is rejected before anything is computed
+        failed == IF Distorted(k) THEN [st |-> Root("default").st, res |-> Res("rejected", s, "-")]
+                  ELSE [st |-> st, res |-> Res("rejected", s, "-")]
         poly   == LET used == IF HistVariant = "stale_inverse" THEN st.inv ELSE "fitted"
                   IN [st |-> [st EXCEPT !.inv = "fitted"], res |-> Res("inverse_poly", s, used)]
         plain  == CASE call = "i2s_d"  -> [st |-> st, res |-> Res("forward", p, IF Distorted(k) THEN "distorted" ELSE "tan")]
@@ -261,6 +275,11 @@ MechCall(k, st, call, pos, mode) ==
                                                                ELSE Res("forward", p, "tan")]
                     [] call = "jac"    -> [st |-> st, res |-> Res("jacobian", p, IF Distorted(k) THEN "distorted" ELSE "tan")]
                     [] call = "s2i_dr" -> IF Distorted(k) THEN root ELSE [st |-> st, res |-> tanInv]
+                    [] call = "s2i_dr_xl" -> IF Distorted(k) THEN Root("loose") ELSE [st |-> st, res |-> tanInv]
+                    [] call = "s2i_dr_xt" -> IF Distorted(k) THEN Root("tight") ELSE [st |-> st, res |-> tanInv]
+                    [] call = "s2i_fail" -> failed
+                    [] call = "jac_h"  -> [st |-> st, res |-> Res("jacobian_half_step", p, IF Distorted(k) THEN "distorted" ELSE "tan")]
+                    [] call = "jac_n"  -> [st |-> st, res |-> Res("jacobian", p, "tan")]
                     [] call = "s2i_nr" -> IF Distorted(k) /\ ~Repaired THEN root ELSE [st |-> st, res |-> tanInv]
                     [] call = "s2i_dp" -> IF Distorted(k) THEN poly ELSE [st |-> st, res |-> tanInv]
                     [] call = "s2i_np" -> [st |-> st, res |-> tanInv]
@@ -270,9 +289,9 @@ MechCall(k, st, call, pos, mode) ==
             THEN [st |-> [plain.st EXCEPT !.memo = [call |-> call, id |-> argid, res |-> plain.res]], res |-> plain.res]
             ELSE plain
 
-HNoObj == [inv |-> "absent", guess |-> <<"none", <<"s", 0>>>>, memo |-> NoMemo]
+HNoObj == [inv |-> "absent", guess |-> <<"none", <<"s", 0>>>>, memo |-> NoMemo, solver |-> "none"]
 InitH == phase = "hist" /\ c = NoCase /\ hk = "none" /\ obj = HNoObj /\ calls = <<>> /\ results = <<>>
-ChooseKind == hk = "none" /\ \E k \in {"TAN", "TPV", "SIP"} : \E m \in HistArgModes :
+ChooseKind == hk = "none" /\ \E k \in HistKinds : \E m \in HistArgModes :
                  hk' = k /\ c' = [kind |-> "argmode", mode |-> m] /\ UNCHANGED <<phase, obj, calls, results>>
 \* the buffer mode is explored one call shorter (it multiplies the sequences by two)
 HistLen(k) == (IF k \in ShortKinds THEN MaxHist - 1 ELSE MaxHist) - (IF c.kind = "argmode" /\ c.mode = "buffer" THEN 1 ELSE 0)
@@ -287,6 +306,47 @@ NextH == ChooseKind \/ \E cl \in HistCalls : Call(cl)
 
 \* the property: every result is what a fresh object returns for that call with the arguments of its position
 HistoryIndependent == \A k \in DOMAIN results : results[k] = MechCall(hk, HNoObj, calls[k], k, c.mode).res
+
+\* ---- E. the world: several objects alive in one process ---------------------------------------------
+\* obj = [objs : Seq([core : object state as above, invfp : footprint the lazily fitted inverse was made for]),
+\*        mod  : what the MODULE keeps between calls (pinned code: nothing)]
+\* calls = Seq([o, call]); the relation tuple (objects 2.. to object 1) is chosen first.
+RelTuple(id) == CASE id = 1 -> <<"same">> [] id = 2 -> <<"cutout">> [] id = 3 -> <<"cd">> [] id = 4 -> <<"crval">>
+                  [] id = 5 -> <<"cutout", "same">> [] id = 6 -> <<"same", "cutout">> [] id = 7 -> <<"cd", "cutout">>
+                  [] id = 8 -> <<"crval", "same">>
+\* what the fitted inverse polynomial depends on besides the coefficients: CRPIX, NAXIS, CD
+Footprint(rel) == CASE rel \in {"base", "same", "crval"} -> "fp_base" [] rel = "cutout" -> "fp_cutout" [] rel = "cd" -> "fp_cd"
+RelOfObj(o) == IF o = 1 THEN "base" ELSE RelTuple(c.relid)[o - 1]
+WObj == [core |-> HNoObj, invfp |-> "none"]
+FreshWorld(n) == [objs |-> [i \in 1..n |-> WObj], mod |-> "none"]
+MechCallW(k, w, o, call, pos) ==
+    LET st    == w.objs[o]
+        fp    == Footprint(RelOfObj(o))
+        r     == MechCall(k, st.core, call, pos, "scalar")
+        poly  == call = "s2i_dp" /\ Distorted(k)
+        fits  == poly /\ st.invfp = "none"                       \* the lazy fit happens in this call
+        memo  == WorldVariant = "module_memo" /\ k # "SIP"       \* variant: PV inverse memoised per coefficient set
+        fitfp == IF ~fits THEN st.invfp ELSE IF memo /\ w.mod # "none" THEN w.mod ELSE fp
+        res   == IF poly THEN [r.res EXCEPT !.b = <<r.res.b, fitfp>>] ELSE r.res
+    IN [w |-> [objs |-> [w.objs EXCEPT ![o] = [core |-> r.st, invfp |-> fitfp]],
+               mod  |-> IF fits /\ memo /\ w.mod = "none" THEN fp ELSE w.mod],
+        res |-> res]
+NObjW == Len(RelTuple(c.relid)) + 1
+InitW == phase = "world" /\ c = NoCase /\ hk = "none" /\ obj = HNoObj /\ calls = <<>> /\ results = <<>>
+ChooseWorld == hk = "none" /\ \E k \in WorldKinds : \E id \in WorldRelIds :
+                  /\ hk' = k /\ c' = [kind |-> "world", relid |-> id]
+                  /\ obj' = FreshWorld(Len(RelTuple(id)) + 1) /\ UNCHANGED <<phase, calls, results>>
+CallW(o, cl) ==
+    /\ hk # "none" /\ Len(calls) < WorldLen /\ o \in 1..NObjW
+    /\ LET r == MechCallW(hk, obj, o, cl, Len(calls) + 1) IN
+          /\ obj' = r.w
+          /\ results' = Append(results, r.res)
+    /\ calls' = Append(calls, [o |-> o, call |-> cl])
+    /\ UNCHANGED <<phase, c, hk>>
+NextW == ChooseWorld \/ \E o \in 1..3 : \E cl \in WorldCalls : CallW(o, cl)
+\* every result is what that call returns on a fresh object in a fresh process
+WorldIndependent == \A n \in DOMAIN results :
+    results[n] = MechCallW(hk, FreshWorld(NObjW), calls[n].o, calls[n].call, n).res
 
 \* ---- D. input representations ------------------------------------------------------------------
 \* every call x element type x container x layout the well-formedness rule of Wcs.tla admits x header kind
@@ -305,4 +365,6 @@ ReprSound == phase = "case" /\ c.kind = "repr" => ReprWellFormed(c)
 Export == DoExport =>
     /\ (phase = "case" => PrintT(<<"CASE", ToJson(c)>>))
     /\ (phase = "hist" /\ hk # "none" /\ Len(calls) = HistLen(hk) => PrintT(<<"HIST", ToJson([hk |-> hk, mode |-> c.mode, calls |-> calls])>>))
+    /\ (phase = "world" /\ hk # "none" /\ Len(calls) = WorldLen =>
+            PrintT(<<"WORLD", ToJson([hk |-> hk, rels |-> RelTuple(c.relid), calls |-> calls])>>))
 =============================================================================
